@@ -6,6 +6,8 @@ OBLIGATIONS = [
     'Yalafi.C01_getTxtPos_length', 'Yalafi.C01_getTxtPos_range', 'Yalafi.C01_scan_inRange',
     'Yalafi.C01_latexError_inRange', 'Yalafi.C01_removeLines_inRange', 'Yalafi.C01_ml_parts',
     'Yalafi.C01_substitute_positions', 'Yalafi.C01_pipeline_partial', 'Yalafi.C01_tex2txt', 'Yalafi.C01_tex2txt_current',
+    # --nums file of the command line (Model/Reports.lean, correspondence: corr_reports.py)
+    'Yalafi.C01_nums_lines', 'Yalafi.C01_write_output',
 ]
 
 def judge(case, res):
@@ -50,6 +52,9 @@ def run(ctx):
     corr.leaf_corr(ctx, cases, results, limit=ctx.scale(300, 3000))
     corr.t2t(ctx, cases, results, limit=ctx.scale(2500, 40000))
     cli(ctx)
+    if ctx.model_ok:
+        import corr_reports
+        corr_reports.nums_corr(ctx, ctx.scale(1500, 15000))
 
 def cli(ctx):
     """--nums file has one number per character written to standard output"""
